@@ -469,3 +469,59 @@ func vpC11_O4() {
 		SignedAccumulator: &revocation.SignedAccumulator{Data: s.upd.SignedAccumulator.Data, PKCounter: s.upd.SignedAccumulator.PKCounter}}
 	vpAssert("a non-revocation part with degenerate commitments is rejected", !vpVerifyRobust(proof, s.pk, ctx, nonce))
 }
+
+func init() {
+	vpHarnesses["vpC11_O8"] = vpC11_O8
+}
+
+// C11-O8: the non-revocation part proves knowledge of a witness for the value whose
+// response it shares with the signature proof - nothing else ties it to the credential.
+// A holder whose credential A is revoked builds, in one session, the disclosure proof of A
+// and a complete non-revocation part from the witness of its other, unrevoked credential B
+// (own randomiser), and sends B's alpha response along inside the non-revocation part.
+// The verifier has to take the response of A's hidden revocation attribute, not the one
+// sent: the proof is rejected.
+func vpC11_O8() {
+	pk, sk := vpKeys(0, 4, 1024, true)
+	upd, err := revocation.NewAccumulator(sk)
+	vpAssume(err == nil)
+	acc, err := upd.SignedAccumulator.UnmarshalVerify(pk)
+	vpAssume(err == nil)
+	witA, err := revocation.RandomWitness(sk, acc)
+	vpAssume(err == nil)
+	witB, err := revocation.RandomWitness(sk, acc)
+	vpAssume(err == nil && witA.E.Cmp(witB.E) != 0)
+	attrs := []*big.Int{vpBigBits("secret", 255), vpBigBits("a1", 256), witA.E}
+	vpAssume(attrs[1].Cmp(witA.E) != 0 && attrs[1].Cmp(witB.E) != 0 && attrs[0].Cmp(witB.E) != 0 && attrs[0].Cmp(witA.E) != 0)
+	sig, err := SignMessageBlock(sk, pk, attrs)
+	vpAssume(err == nil)
+	credA := &Credential{Signature: sig, Pk: pk, Attributes: attrs}
+	acc1, ev, err := acc.Remove(sk, witA.E, upd.Events[0])
+	vpAssume(err == nil)
+	upd1, err := revocation.NewUpdate(sk, acc1, []*revocation.Event{upd.Events[0], ev})
+	vpAssume(err == nil)
+	witB.SignedAccumulator = upd.SignedAccumulator
+	vpAssume(witB.Update(pk, upd1) == nil)
+	ctx, nonce := vpBigBits("ctx", 256), vpBigBits("nonce", 80)
+	b, err := credA.CreateDisclosureProofBuilder(nil, nil, false)
+	vpAssume(err == nil)
+	nb := &NonRevocationProofBuilder{pk: pk, witness: witB, index: witB.SignedAccumulator.Accumulator.Index, randomizer: revocation.NewProofRandomizer()}
+	_, err = nb.Commit()
+	vpAssume(err == nil)
+	b.nonrevBuilder = nb
+	// the ordinary attribute gets a long randomiser, A's revocation attribute a short one, so that
+	// the verifier's choice of the revocation attribute is not in question
+	lo, hi := new(big.Int).Lsh(big.NewInt(1), 581), new(big.Int).Lsh(big.NewInt(1), 591)
+	b.attrRandomizers[1] = vpBigRange("r1", lo, hi)
+	b.attrRandomizers[2] = vpBigRange("r2", big.NewInt(0), new(big.Int).Lsh(big.NewInt(1), 500))
+	bl := ProofBuilderList{b}
+	rs, err := NewProofRandomizers()
+	vpAssume(err == nil)
+	c, err := bl.ChallengeWithRandomizers(ctx, nonce, rs, false)
+	vpAssume(err == nil && c.Sign() != 0)
+	pl, err := bl.BuildDistributedProofList(c, nil)
+	vpAssume(err == nil)
+	proof := pl[0].(*ProofD)
+	proof.NonRevocationProof.Responses["alpha"] = nb.CreateProof(c).Responses["alpha"]
+	vpAssert("a revoked credential shown with another credential's witness and that witness's own alpha response is rejected", !vpVerifyRobust(proof, pk, ctx, nonce))
+}
